@@ -355,6 +355,11 @@ type c19Thread struct {
 	listLagging bool
 	freshGet    bool
 	servedUID   types.UID
+	// the Usage the Get served carried a deletionTimestamp: this reconcile runs the deletion branch
+	servedDeleting bool
+	// the reconcile has read its Usage; keys of the used resource that Usage named then and since
+	gotUsage bool
+	keys     map[string]bool
 }
 
 // c19Track: "the Usage and its using resource exist, as the same objects, throughout the reconcile".
@@ -425,6 +430,41 @@ type c19Sys struct {
 	// lagStale[k]: the in-use label of k was removed by a reconcile whose cached List lagged behind
 	// the store and missed a Usage of k (finding: informer-cache lag of the Usage index)
 	lagStale map[string]bool
+	// overlapped[k]: since the label of k was last set, two in-flight reconciles that had read their
+	// Usages held Usages of resource k at the same time (the per-resource serialisation that
+	// marker_while_ready_key_serial assumes was violated for k)
+	overlapped map[string]bool
+	laggedGet  bool
+}
+
+// noteOverlap records, after a call of an in-flight reconcile, which used resources are being
+// worked on by two reconciles at once.
+func (s *c19Sys) noteOverlap(sn *c19Snap) {
+	names := []string{}
+	for n, t := range s.threads {
+		if !t.done && t.gotUsage {
+			names = append(names, n)
+		}
+	}
+	sort.Strings(names)
+	for _, n := range names {
+		t := s.threads[n]
+		if u, ok := sn.Usages[n]; ok && u.OfName != "" {
+			if t.keys == nil {
+				t.keys = map[string]bool{}
+			}
+			t.keys[c19ResKey(u.OfGroup, u.OfKind, u.OfName)] = true
+		}
+	}
+	for i, a := range names {
+		for _, b := range names[i+1:] {
+			for k := range s.threads[a].keys {
+				if s.threads[b].keys[k] {
+					s.overlapped[k] = true
+				}
+			}
+		}
+	}
 }
 
 func (s *c19Sys) mon(sig, why string) {
@@ -439,7 +479,7 @@ func c19NewSys(maxc int) *c19Sys {
 	sc := runtime.NewScheme()
 	_ = v1beta1.AddToScheme(sc)
 	st := NewStore(sc)
-	s := &c19Sys{st: st, maxc: maxc, threads: map[string]*c19Thread{}, monSeen: map[string]bool{}, stale: map[string]bool{}, tainted: map[types.UID]string{}, born: map[types.UID]string{}, claims: map[types.UID]*c19Claim{}, released: map[types.UID]bool{}, lagStale: map[string]bool{}}
+	s := &c19Sys{st: st, maxc: maxc, threads: map[string]*c19Thread{}, monSeen: map[string]bool{}, stale: map[string]bool{}, tainted: map[types.UID]string{}, born: map[types.UID]string{}, claims: map[types.UID]*c19Claim{}, released: map[types.UID]bool{}, lagStale: map[string]bool{}, overlapped: map[string]bool{}}
 	// ONE client, ONE webhook handler and ONE Reconciler per scenario, as Setup /
 	// SetupWebhookWithManager build them once per process
 	s.cl = &c19Client{Store: st, s: s}
@@ -1252,7 +1292,9 @@ func (s *c19Sys) sigFor(k, plain string, us ...*c19SUsage) string {
 	case s.lagStale[k]:
 		// the label of k was removed on a count taken from a lagging informer cache (finding)
 		known = c19SigLagCount
-	case s.stale[k]:
+	case s.stale[k] && (s.overlapped[k] || s.laggedGet):
+		// D16 needs two overlapping reconciles of Usages of the same resource
+		// (marker_while_ready_key_serial: without such an overlap the marker is never lost)
 		known = "C19:marker-removed-after-stale-count"
 	}
 	for _, u := range us {
@@ -1349,6 +1391,15 @@ func (s *c19Sys) checkState(before, after *c19Snap, step int) {
 // afterCall is run after every reconciler API call (direct monitors on writes).
 func (s *c19Sys) afterCall(t *c19Thread, c CallInfo, before *c19Snap) {
 	after := s.snapshot()
+	if c.Verb == "get" && c.GK == c19UsageGK.String() && c.Err == "" {
+		t.gotUsage = true
+		if !t.freshGet {
+			// the informer cache served an older version of the Usage: which resource the reconcile
+			// believes it works on is not what the store says (outside the theorem's listFresh world)
+			s.laggedGet = true
+		}
+	}
+	s.noteOverlap(after)
 	if c.Verb == "list" && c.GK == c19UsageGK.String() && c.Err == "" {
 		// the reconciler counted the Usages of its used resource: remember who it was told about
 		// (t.served, from the informer cache) and who was there (t.listed, the store)
@@ -1370,8 +1421,10 @@ func (s *c19Sys) afterCall(t *c19Thread, c CallInfo, before *c19Snap) {
 		if ra, ok := after.Res[k]; !ok || ra.UID != rb.UID || (!rb.InUse && ra.InUse) {
 			delete(s.stale, k)
 			delete(s.lagStale, k)
+			delete(s.overlapped, k)
 		}
 	}
+	s.noteOverlap(after)
 	if c.Verb == "list" && c.GK != c19UsageGK.String() && c.Err == "" {
 		t.resListed = before.Res
 	}
@@ -1386,6 +1439,16 @@ func (s *c19Sys) afterCall(t *c19Thread, c CallInfo, before *c19Snap) {
 		}
 	}
 	if c.Verb == "update" && c.Applied {
+		// the deletion branch of a composed Usage waits for its using resource: a reconcile of a
+		// Usage whose deletion was requested that has SEEN the using resource (its Get succeeded)
+		// must not write anything - not remove the label, not drop the finalizer -, whatever owner
+		// references the Usage carries
+		if me := before.Usages[t.name]; me != nil && t.servedDeleting && me.UID == t.servedUID && me.HasBy && me.ByName != "" {
+			usingKey, usedKey := c19ResKey(me.ByGroup, me.ByKind, me.ByName), c19ResKey(me.OfGroup, me.OfKind, me.OfName)
+			if _, saw := t.gotAt[usingKey]; saw && usingKey != usedKey {
+				s.mon("C19:deleting-usage-released-while-user-exists", fmt.Sprintf("reconcile of Usage %s (deletion requested) found its using resource %s and went on to %s %s %s: the used resource is released while the user exists", t.name, usingKey, c.Verb, c.GK, c.Name))
+			}
+		}
 		for k, rb := range before.Res {
 			ra, ok := after.Res[k]
 			if !ok || !rb.InUse || ra.InUse || ra.UID != rb.UID {
